@@ -1,14 +1,16 @@
 """C05 — approximate algorithms return a basis of the caller's graph with true weight."""
 from approx import *
 THEOREMS = ["Parmcb.C05.c05_basis", "Parmcb.C05.c05_owner", "Parmcb.C05.c05_count", "Parmcb.C05.c05_every_basis_has_N",
-            "Parmcb.C05.c05_approx_signed_end_to_end", "Parmcb.C05.c05_approx_fvs_trees_end_to_end", "Parmcb.C05.c05_approx_iso_trees_end_to_end"]
+            "Parmcb.C05.c05_approx_signed_end_to_end", "Parmcb.C05.c05_approx_fvs_trees_end_to_end", "Parmcb.C05.c05_approx_iso_trees_end_to_end",
+            "Parmcb.C02.c05_approx_signed_heap_end_to_end", "Parmcb.C02.c05_approx_fvs_trees_heap_end_to_end", "Parmcb.C02.c05_approx_iso_trees_heap_end_to_end"]
 PID = "C05"
 
 def the_oracle(case, k, block, mu): return oracle_c05(case, k, block)
 
-def run(tier, replay=None, pid=PID, theorems=THEOREMS, oracle=the_oracle, ks=(1, 2, 3, 5, 9, 40), need_mu=False, module="Parmcb.Props.C05c"):
+def run(tier, replay=None, pid=PID, theorems=THEOREMS, oracle=the_oracle, ks=(1, 2, 3, 5, 9, 40), need_mu=False, module="Parmcb"):
     res = Result(pid, tier, "proof")
-    res.assumptions = ["Model/Spanner.lean (approxRun) + Model/DePina.lean; the exact phase on the spanner and the shortest spanner paths are open choices validated per run (trace validation)",
+    res.assumptions = ["relational layer: Model/Spanner.lean (approxRun) + Model/DePina.lean; the exact phase on the spanner and the shortest spanner paths are open choices validated per run (trace validation)",
+                       "literal layer: Model/ApproxAlgo.lean / Model/HeapAlgo.lean are end-to-end literal models (spanner, exact phase on the spanner, literal parmcb::dijkstra on a literal 4-ary heap, walk back along the predecessor edges) whose correctness is PROVED (c05_approx_*_end_to_end); on every sequential run the exact phase is replayed literally on the spanner and every dropped-edge cycle must equal the literal heap-Dijkstra path, edge by edge in order",
                        "descriptors are dereferenced through the caller's maps after the call has returned (ASan build in the thorough tier)"]
     lean_ok = lean_gate(res, module, theorems)
     binary, log = compile_harness("h_graph.cpp", sanitize=(tier == "thorough"))
@@ -47,6 +49,7 @@ def run(tier, replay=None, pid=PID, theorems=THEOREMS, oracle=the_oracle, ks=(1,
         "rule": "graphs as in C16 x {approx_mcb_sva_signed, _fvs_trees, _iso_trees} x k in %s; non-trivial = cycle space dimension >= 1" % (list(ks),),
         "traces_validated_against_impl": len(oks), "spanner_cycles_total": sum(int(w[5]) for w in oks), "edge_cycles_total": sum(int(w[6]) for w in oks),
         "edge_cycles_equal_to_the_literal_heap_dijkstra_path": sum(int(w[8]) for w in oks if len(w) > 8),
+        "runs_whose_exact_phase_on_the_spanner_was_replayed_literally": sum(int(w[9]) for w in oks if len(w) > 9),
         "k_histogram": {str(k): sum(1 for m in meta.values() if m[1] == k) for k in ks},
         "samples": [{"n": c[0], "edges": c[1], "variant": meta[k][0], "k": meta[k][1]} for k, c in list(cases.items())[-2:]], **stats(cases)})
     if bad or viols:
